@@ -49,6 +49,8 @@ def sort_of(ty):
         return StrSort
     if isinstance(ty, tuple) and ty[0] == 'obj':
         return z3.IntSort()
+    if isinstance(ty, tuple) and ty[0] in ('list', 'set', 'map'):
+        return z3.IntSort()          # collection id (see Interp.coll_*)
     if isinstance(ty, tuple) and ty[0] == 'tuple':
         key = tuple(str(sort_of(t)) for t in ty[1])
         if key not in _tuple_sorts:
@@ -105,11 +107,11 @@ class VList(object):
 
 class VDict(object):
     """Dict with concrete (hashable Python) keys."""
-    __slots__ = ('items', 'default')
-
     def __init__(self, items=None, default=None):
         self.items = dict(items or {})
         self.default = default       # callable value for defaultdict
+        self.present = None          # key -> z3 Bool for optional keys
+        self.sym_items = None        # [(symbolic key, value)] association list
 
     def __repr__(self):
         return 'VDict(%r)' % (self.items,)
